@@ -46,9 +46,9 @@ let run () = iter_lines (fun line ->
       (* a plain `exit 3` leaves the script with code 3: when 3 IS the skip code of the script that is a skip like `exit <skip code>` *)
       let x_is_skip = script_mode && int_of_z script_skip = 3 in
       let total_ms = (match cli_timeout with Some t -> t | None -> (match m.total with Some t -> t | None -> int_of_n default_document_timeout_ms)) in
-      (* time that has certainly passed before each test case starts: one second for every `wait: 1s` so far (this one included) *)
-      let elapsed = (let rec f acc = function [] -> [] | (_, _, t) :: r -> let acc' = (if t.kind = 'w' then acc + 1000 else acc) in acc' :: f acc' r in
-                     let l = f 0 all in List.mapi (fun i e -> if (let (_, _, t) = List.nth all i in t.kind = 'w') then e - 1000 else e) l) in
+      (* time that has certainly passed before each test case starts: two seconds for every `wait: 2s` so far (this one included) *)
+      let elapsed = (let rec f acc = function [] -> [] | (_, _, t) :: r -> let acc' = (if t.kind = 'w' then acc + 2000 else acc) in acc' :: f acc' r in
+                     let l = f 0 all in List.mapi (fun i e -> if (let (_, _, t) = List.nth all i in t.kind = 'w') then e - 2000 else e) l) in
       let rs = List.map2 (fun ((_, _, t) as x) el ->
           let st = (if (not m.cram) && total_ms > 0 && el >= total_ms then TimedOut else match t.kind with
               | 'P' | 'O' | 'w' -> Code Z0 | 'C' | 'E' -> Code (z_of_int t.code) | 'S' -> Code (z_of_int (if m.cram then 80 else skip_of x))
